@@ -119,7 +119,9 @@ func Parse(r io.Reader) (*Trace, error) {
 			delete(pending, tid)
 			line = head + m[2]
 		}
-		if strings.Contains(line, "<detached ...>") {
+		if strings.Contains(line, "<detached ...>") || strings.HasPrefix(line, "???(") {
+			// "???() = ?": a thread that went away before strace learnt which
+			// call it was in (process exit).
 			continue
 		}
 		hm := reCallHead.FindStringSubmatch(line)
